@@ -709,10 +709,13 @@ var c18Profiles = []c18Profile{
 }
 
 func c18Gen(r *rand.Rand, p c18Profile) []c18Op {
-	n := 3 + r.Intn(8)
+	n := 3 + r.Intn(11)
 	chans := []string{"a", "b"}
-	if r.Intn(3) == 0 {
+	switch r.Intn(4) {
+	case 0:
 		chans = []string{"news"}
+	case 1:
+		chans = []string{"a", "chat:42", "$private#7"}
 	}
 	count := map[string]int{}
 	var ops []c18Op
